@@ -1,0 +1,56 @@
+//! Probes exposing private pure functions and types for exhaustive checks.
+use crate::connection_options::ConnectionOptions;
+use crate::errors::*;
+use crate::{Auth, FieldTable};
+use amq_protocol::protocol::connection::{Open, Start, StartOk, Tune, TuneOk};
+use std::time::Duration;
+
+pub use crate::frame_buffer::FrameBuffer;
+pub use crate::io_loop::verif_probe::*;
+
+/// `ConnectionOptions::make_tune_ok`.
+pub fn tune_ok(options: &ConnectionOptions<Auth>, tune: Tune) -> Result<TuneOk> {
+    options.make_tune_ok(tune)
+}
+
+/// `ConnectionOptions::make_start_ok`.
+pub fn start_ok(options: &ConnectionOptions<Auth>, start: Start) -> Result<(StartOk, FieldTable)> {
+    options.make_start_ok(start)
+}
+
+/// `ConnectionOptions::make_open`.
+pub fn open(options: &ConnectionOptions<Auth>) -> Open {
+    options.make_open()
+}
+
+/// The crate-private fields of `ConnectionOptions`.
+#[derive(Clone, Debug, PartialEq)]
+pub struct OptionsView {
+    pub auth: Auth,
+    pub virtual_host: String,
+    pub locale: String,
+    pub channel_max: u16,
+    pub frame_max: u32,
+    pub heartbeat: u16,
+    pub connection_timeout: Option<Duration>,
+}
+
+pub fn options_view(o: &ConnectionOptions<Auth>) -> OptionsView {
+    OptionsView {
+        auth: o.auth.clone(),
+        virtual_host: o.virtual_host.clone(),
+        locale: o.locale.clone(),
+        channel_max: o.channel_max,
+        frame_max: o.frame_max,
+        heartbeat: o.heartbeat,
+        connection_timeout: o.connection_timeout,
+    }
+}
+
+/// What `Connection::insecure_open(url)` / `open(url)` would use:
+/// (is_amqps, host, port, options) — URL parsing, scheme/host/port defaults and decoding,
+/// stopping short of touching the network.
+pub fn decode_url(url: &str) -> Result<(bool, String, u16, OptionsView)> {
+    let (amqps, host, port, options) = crate::connection::verif_decode(url)?;
+    Ok((amqps, host, port, options_view(&options)))
+}
